@@ -54,6 +54,7 @@ func (e *StorageEngine) processAddrDeleteOnShards(shards []shardWrapper, addr oi
 		err      error
 		root     bool
 		siNoLink *object.SplitInfo
+		checkErr error
 	)
 
 	// see if the object is root
@@ -79,6 +80,7 @@ func (e *StorageEngine) processAddrDeleteOnShards(shards []shardWrapper, addr oi
 			var siErr *object.SplitInfoError
 			if !errors.As(err, &siErr) {
 				e.reportShardError(sh, "could not check for presence in shard", err, zap.Stringer("addr", addr))
+				checkErr = err
 				continue
 			}
 
@@ -152,7 +154,8 @@ func (e *StorageEngine) processAddrDeleteOnShards(shards []shardWrapper, addr oi
 	}
 
 	if !root {
-		return nil // Already deleted everywhere.
+		// Already deleted everywhere unless some shard could not be checked.
+		return checkErr
 	}
 
 	if siNoLink != nil {
